@@ -52,7 +52,9 @@ def gen_patterns(ctx, rng):
     # counted quantifiers with huge numbers, alone and nested
     for a in HUGE:
         pats += ["a{%s}" % a, "a{%s,}" % a, "a{0,%s}" % a, "a{%s,%s}" % (a, a), "(?:a{%s}){%s}" % (a, a), "(a{%s})*" % a, "[ab]{%s}c" % a,
-                 "a{%s}{%s}" % (a, a), "(?:a{2}){%s}" % a, "a{1,%s}?" % a, "(?=a{%s})" % a, "(?<=a{%s})b" % a]
+                 "a{%s}{%s}" % (a, a), "(?:a{2}){%s}" % a, "a{1,%s}?" % a, "(?=a{%s})" % a, "(?<=a{%s})b" % a,
+                 # bodies that emit no instruction: unrolling them must not cost time proportional to the count
+                 "(?:){%s}" % a, "(){%s}" % a, "(?:|){%s}" % a, "(?:(?:)){%s,}" % a, "(?:){1,%s}" % a, "(?:(?:){%s}){%s}" % (a, a), "(?:a*){%s}" % a, "(?:){%s}?" % a]
     for n_groups in (10, 100, 255, 256, 1000, 10000):
         pats.append("(a)" * n_groups)
         pats.append("(a)" * n_groups + "\\%d" % n_groups)
@@ -101,7 +103,7 @@ def w_construct(case, opts):
             ent["api"] = "ok"
             ent["ninstr"] = len(r._bytecode)
             try:
-                r.exec("aab\nabc aaaa")
+                r.exec("aab\nabc aaaa \u00df\u0130\u0149\u01f0\ufb01\u0390\u017f\u212a")     # incl. characters whose case mappings change length
                 ent["exec"] = "ok"
             except E.VerifAbort:
                 ent["exec"] = "abort"
